@@ -14,8 +14,7 @@
   switches do not happen (answers stay correct, DESIGN §5 C07) — modelled as written.
 -/
 import AHP.Model.Search
-namespace AHP
-
+namespace AHP.G3
 /-! ### association lists standing for dicts -/
 
 def assocSet {β : Type} (m : List (Str × β)) (k : Str) (v : β) : List (Str × β) :=
@@ -276,4 +275,4 @@ def Elem.addClass (e : Elem) (c : Str) : Elem := if e.classes.contains c then e 
 /-- `removeClass(c)` for one name. -/
 def Elem.removeClass (e : Elem) (c : Str) : Elem := { e with classes := e.classes.erase c }
 
-end AHP
+end AHP.G3
